@@ -156,6 +156,9 @@ def check(ctx):
                     if T.occurs(u['next'], res) and lab != 'callback':
                         # allowed: guard of the refinement (state carried only if the loop continues)
                         stripped = T.subst(u['next'], {('truth', res): T.TRUE})
+                        # a boolean flag that just holds the decision is still "the boolean"
+                        if u['next'] in (res, ('truth', res)):
+                            continue
                         if T.occurs(stripped, res):
                             uses.append(lab)
                 cal = p.find(cbname)[0]
